@@ -47,6 +47,16 @@ pub struct Case {
     pub blocks: Vec<Block>,
     pub crlf: bool,
     pub final_newline: bool,
+    /// language of the test blocks: "scrut" (default) or "sh" (then `--markdown-languages sh` is passed)
+    #[serde(default = "default_lang")]
+    pub lang: String,
+    /// update is invoked on two documents: an all-passing one first, then this one
+    #[serde(default)]
+    pub with_unchanged_first: bool,
+}
+
+fn default_lang() -> String {
+    "scrut".into()
 }
 
 fn sh_word(w: &str) -> String {
@@ -71,7 +81,8 @@ impl TestBlock {
         if self.heredoc.is_empty() {
             return vec![format!("$ {}", self.command())];
         }
-        let mut v = vec!["$ cat <<'EOF'".to_string()];
+        let to = if self.config.contains("output_stream: stderr") { " >&2" } else { "" };
+        let mut v = vec![format!("$ cat{to} <<'EOF'")];
         for l in &self.heredoc {
             v.push(format!("> {l}"));
         }
@@ -79,7 +90,9 @@ impl TestBlock {
         v.join("\n").split('\n').map(|s| s.to_string()).collect()
     }
     fn command(&self) -> String {
-        let mut parts: Vec<String> = self.words.iter().map(|w| format!("echo {}", sh_word(w))).collect();
+        // with `output_stream: stderr` the words are written to stderr (that is the judged stream)
+        let to = if self.config.contains("output_stream: stderr") { " >&2" } else { "" };
+        let mut parts: Vec<String> = self.words.iter().map(|w| format!("echo {}{to}", sh_word(w))).collect();
         if self.code != 0 {
             parts.push(format!("(exit {})", self.code));
         }
@@ -94,9 +107,9 @@ impl TestBlock {
         let longest = self.out_lines().iter().map(|l| l.chars().take_while(|c| *c == '`').count()).max().unwrap_or(0);
         self.fence.max(longest + 1).max(3)
     }
-    fn lines(&self) -> Vec<String> {
+    fn lines(&self, lang: &str) -> Vec<String> {
         let fence = self.fence_len();
-        let mut v = vec![format!("{}scrut{}", "`".repeat(fence), self.config)];
+        let mut v = vec![format!("{}{lang}{}", "`".repeat(fence), self.config)];
         v.extend(self.comments.iter().cloned());
         v.extend(self.command_lines());
         match self.outcome.as_str() {
@@ -157,7 +170,7 @@ fn render(case: &Case) -> (Vec<String>, Vec<String>) {
                 outside.extend(v.iter().cloned());
                 all.extend(v);
             }
-            Block::Test(t) => all.extend(t.lines()),
+            Block::Test(t) => all.extend(t.lines(&case.lang)),
         }
     }
     (all, outside)
@@ -181,7 +194,7 @@ struct FoundBlock {
 /// split an updated document into outside lines and scrut blocks (harness's own reader for the
 /// shapes the generator produces: fences of >= 3 backticks at line start, closed by a line of
 /// only backticks at least as long)
-fn split_doc(text: &str) -> (Vec<String>, Vec<FoundBlock>) {
+fn split_doc(text: &str, lang: &str) -> (Vec<String>, Vec<FoundBlock>) {
     let norm = text.replace("\r\n", "\n");
     let mut lines: Vec<&str> = norm.split('\n').collect();
     if lines.last() == Some(&"") {
@@ -204,7 +217,7 @@ fn split_doc(text: &str) -> (Vec<String>, Vec<FoundBlock>) {
         let ticks = l.chars().take_while(|c| *c == '`').count();
         if ticks >= 3 {
             let info = l[ticks..].to_string();
-            let is_scrut = info.trim_start().starts_with("scrut");
+            let is_scrut = info.trim_start().split(|c: char| c.is_whitespace() || c == '{').next() == Some(lang);
             let mut j = i + 1;
             let mut body = vec![];
             while j < lines.len() {
@@ -250,7 +263,7 @@ fn gen_test(rng: &mut Rng) -> TestBlock {
     }
     TestBlock {
         fence: *rng.pick(&[3usize, 3, 3, 4, 5]),
-        config: rng.pick(&["", "", " {timeout: 9s}", " {output_stream: combined}", " {keep_crlf: true, timeout: 1m}"]).to_string(),
+        config: rng.pick(&["", "", " {timeout: 9s}", " {output_stream: combined}", " {keep_crlf: true, timeout: 1m}", " {output_stream: stderr}", " { }", " {}"]).to_string(),
         comments: (0..rng.below(3)).map(|i| format!("# comment {i}")).collect(),
         words,
         code,
@@ -324,10 +337,23 @@ impl Monitor for C10e {
         if !final_newline && matches!(blocks.last(), Some(Block::Blank)) {
             blocks.push(Block::Para(vec!["last line without newline".into()]));
         }
+        let lang = if rng.chance(1, 6) { "sh" } else { "scrut" }.to_string();
+        if lang == "sh" {
+            // the test language is `sh`: foreign `sh` blocks would become tests, and a ```scrut block is documentation
+            for b in blocks.iter_mut() {
+                if let Block::Foreign { lang: l, .. } = b {
+                    if l == "sh" {
+                        *l = "scrut".into();
+                    }
+                }
+            }
+        }
         Case {
             blocks,
             crlf: rng.chance(1, 6),
             final_newline,
+            lang,
+            with_unchanged_first: rng.chance(1, 5),
         }
     }
 
@@ -368,6 +394,18 @@ impl Monitor for C10e {
             if tests.iter().any(|t| !t.heredoc.is_empty()) {
                 f.push("multiline-command");
             }
+            if case.lang != "scrut" {
+                f.push("other-language");
+            }
+            if case.with_unchanged_first {
+                f.push("two-documents");
+            }
+            if tests.iter().any(|t| t.config.contains("stderr")) {
+                f.push("stderr-stream");
+            }
+            if tests.iter().any(|t| t.config.trim() == "{ }" || t.config.trim() == "{}") {
+                f.push("blank-config");
+            }
             if tests.iter().any(|t| t.out_lines().iter().any(|l| l.starts_with("```"))) {
                 f.push("fence-like-output");
             }
@@ -381,7 +419,26 @@ impl Monitor for C10e {
             Checked::violated(format!("C10/e2e/{clause}//{features}"), format!("{what}\n--- original ---\n{text}\n--- after ---\n{doc}"))
         };
         let any_failing = tests.iter().any(|t| !t.passes());
-        let r1 = ScrutCmd::new(&sb, &["update", "--replace", "--assume-yes", "doc.md"]).watchdog(wd).run(env);
+        // optional first document whose tests all pass: it must stay byte-identical and must not leak into doc.md
+        let first_text = format!("# first document\n\n```{}\n$ echo first-doc-output\nfirst-doc-output\n```\n\ntrailer of the first document\n", case.lang);
+        let mut update_args: Vec<String> = vec!["update".into(), "--replace".into(), "--assume-yes".into()];
+        let mut test_args: Vec<String> = vec!["test".into()];
+        if case.with_unchanged_first {
+            sb.write_doc("a-first.md", first_text.as_bytes());
+            update_args.push("a-first.md".into());
+        }
+        update_args.push("doc.md".into());
+        test_args.push("doc.md".into());
+        if case.lang != "scrut" {
+            // the (hidden) flag takes a list: it goes behind the paths
+            for a in [&mut update_args, &mut test_args] {
+                a.push("--markdown-languages".into());
+                a.push(case.lang.clone());
+            }
+        }
+        let ua: Vec<&str> = update_args.iter().map(|s| s.as_str()).collect();
+        let ta: Vec<&str> = test_args.iter().map(|s| s.as_str()).collect();
+        let r1 = ScrutCmd::new(&sb, &ua).watchdog(wd).run(env);
         if r1.watchdog_fired {
             return Checked::inconclusive("watchdog (update 1)");
         }
@@ -389,7 +446,7 @@ impl Monitor for C10e {
             return bad("update-failed", format!("first update rc={:?}: {}", r1.code, r1.stderr_str().lines().take(5).collect::<Vec<_>>().join(" | ")), "");
         }
         let after1 = std::fs::read_to_string(sb.docs.join("doc.md")).unwrap_or_default();
-        let (out1, blocks1) = split_doc(&after1);
+        let (out1, blocks1) = split_doc(&after1, &case.lang);
         if out1 != outside {
             let at = out1.iter().zip(outside.iter()).position(|(a, b)| a != b).unwrap_or(out1.len().min(outside.len()));
             return bad(
@@ -402,8 +459,9 @@ impl Monitor for C10e {
             return bad("block-count", format!("{} scrut blocks before, {} after", tests.len(), blocks1.len()), &after1);
         }
         for (i, (t, fb)) in tests.iter().zip(blocks1.iter()).enumerate() {
-            let want_info = format!("scrut{}", t.config);
-            if fb.info.trim() != want_info.trim() {
+            let want_info = format!("{}{}", case.lang, t.config);
+            let squeeze = |s: &str| s.chars().filter(|c| !c.is_whitespace()).collect::<String>().replace("{}", "");
+            if squeeze(&fb.info) != squeeze(&want_info) {
                 return bad("language-or-config-lost", format!("block {i}: info string {:?}, expected {:?}", fb.info, want_info), &after1);
             }
             let comments: Vec<&String> = fb.body.iter().filter(|l| l.starts_with('#')).collect();
@@ -417,14 +475,20 @@ impl Monitor for C10e {
                 return bad("command-changed", format!("block {i}: command lines {cmd_lines:?} not found in {:?}", fb.body), &after1);
             }
             if t.passes() {
-                let orig = t.lines();
+                let orig = t.lines(&case.lang);
                 let orig_body = &orig[1..orig.len() - 1];
                 if fb.body != orig_body {
                     return bad("passing-test-rewritten", format!("block {i} passes but its body changed: {:?} -> {:?}", orig_body, fb.body), &after1);
                 }
             }
         }
-        let r2 = ScrutCmd::new(&sb, &["update", "--replace", "--assume-yes", "doc.md"]).watchdog(wd).run(env);
+        if case.with_unchanged_first {
+            let first_after = std::fs::read_to_string(sb.docs.join("a-first.md")).unwrap_or_default();
+            if first_after != first_text {
+                return bad("other-document-changed", format!("the all-passing first document was rewritten:\n{first_after}"), &after1);
+            }
+        }
+        let r2 = ScrutCmd::new(&sb, &ua).watchdog(wd).run(env);
         if r2.watchdog_fired {
             return Checked::inconclusive("watchdog (update 2)");
         }
@@ -432,7 +496,7 @@ impl Monitor for C10e {
         if r2.code != Some(0) || after2 != after1 {
             return bad("not-idempotent", format!("second update rc={:?} changed the document:\n--- second ---\n{after2}", r2.code), &after1);
         }
-        let r3 = ScrutCmd::new(&sb, &["test", "doc.md"]).watchdog(wd).run(env);
+        let r3 = ScrutCmd::new(&sb, &ta).watchdog(wd).run(env);
         if r3.watchdog_fired {
             return Checked::inconclusive("watchdog (test)");
         }
@@ -476,6 +540,16 @@ impl Monitor for C10e {
         if case.crlf {
             let mut c = case.clone();
             c.crlf = false;
+            v.push(c);
+        }
+        if case.with_unchanged_first {
+            let mut c = case.clone();
+            c.with_unchanged_first = false;
+            v.push(c);
+        }
+        if case.lang != "scrut" {
+            let mut c = case.clone();
+            c.lang = "scrut".into();
             v.push(c);
         }
         if !case.final_newline {
